@@ -47,8 +47,8 @@ FIXED = [
 # preemption-bounded systematic exploration: (mode, count, prog, bound, max executions) per tier
 PB = {
     "quick": [("fut", 0, "sv7_of", 1, 100), ("fut", 0, "sv7_get", 1, 100), ("fut", 0, "sv7_wf50", 1, 100), ("fut", 0, "sv7_th", 1, 100),
-              ("latch", 1, "cd1_of", 1, 100), ("fut", 0, "sv7_of", 2, 110), ("fut", 0, "sv7_get", 2, 110),
-              ("fut", 0, "sv7_of_get", 1, 110), ("latch", 2, "cd1_cd1_of", 1, 110)],
+              ("latch", 1, "cd1_of", 1, 100), ("fut", 0, "sv7_of", 2, 140), ("fut", 0, "sv7_get", 2, 140),
+              ("fut", 0, "sv7_of_get", 1, 140), ("latch", 2, "cd1_cd1_of", 1, 140)],
     "thorough": [("fut", 0, "sv7_of", 3, 1200), ("fut", 0, "sv7_get", 3, 1200), ("fut", 0, "sv7_wf50", 3, 1200), ("fut", 0, "sv7_th", 2, 600),
                  ("latch", 1, "cd1_of", 2, 600), ("latch", 1, "cd1_get", 2, 600), ("fut", 0, "sv7_of_get", 2, 1200), ("fut", 0, "sv7_of_of", 2, 1200),
                  ("fut", 0, "sv7_get_wf30", 2, 1200), ("latch", 2, "cd1_cd1_of", 2, 1200), ("latch", 2, "cd1_cd1_rd", 1, 600), ("fut", 0, "of.sv7_get", 2, 800)],
@@ -196,12 +196,12 @@ def rerun(key):
 def mc_list(tier):
     mcs = [("sc", "Fut_sc.cfg"), ("wm", "Fut_wm.cfg")]
     if tier == "thorough":
-        mcs += [("sc_full", "Fut_sc_full.cfg"), ("wm3", "Fut_wm3.cfg"), ("live", "Fut_live.cfg")]
+        mcs += [("sc_full", "Fut_sc_full.cfg"), ("sc_4", "Fut_sc_4.cfg"), ("wm3", "Fut_wm3.cfg"), ("live", "Fut_live.cfg")]
     return mcs
 
 
 def submit_all(pool, jobs):
-    """TLC runs started from threads: keep their start times apart (vlib names the metadir by pid + ms)"""
+    """start the jobs a little apart (TLC start-up is a burst of CPU and disk activity)"""
     futs = []
     for fn, args in jobs:
         futs.append(pool.submit(fn, *args))
@@ -226,10 +226,11 @@ def run(pid, tier, seed, replay=None):
     tag0 = json.dumps(committed, sort_keys=True)
 
     # ---- TLC on the L2 model with the committed table, in the background
-    pool = concurrent.futures.ThreadPoolExecutor(max_workers=8)
+    # worker PROCESSES (not threads): vlib.tlc names its TLC metadir by pid + millisecond
+    pool = concurrent.futures.ProcessPoolExecutor(max_workers=8)
     pending = []
     if not replay:
-        nw = max(2, vlib.NCPU // 2)
+        nw = max(2, vlib.NCPU // 4)
         pending = submit_all(pool, [(run_mc, (name, cfg, tag0, [], nw)) for name, cfg in mc_list(tier)])
         overflow = pool.submit(run_mc, "overflow", "Fut_overflow.cfg", tag0, [], 2)
 
@@ -238,8 +239,8 @@ def run(pid, tier, seed, replay=None):
         ex = rerun(key["exec"])
         execs, status = [ex], {}
     else:
-        nseeds = 12 if tier == "quick" else 80
-        nrand = 20 if tier == "quick" else 200
+        nseeds = 16 if tier == "quick" else 80
+        nrand = 24 if tier == "quick" else 200
         base = seed * 1000 + 1
         execs, status = record(FIXED, (base, base + nseeds), "mix", os.path.join(vlib.BUILD, "traces", pid + "_fixed"))
         rprogs = [gen_program(rng) for _ in range(nrand)]
@@ -262,14 +263,19 @@ def run(pid, tier, seed, replay=None):
         ("L1", os.path.join(SPEC, "Fut_Mon.tla"), os.path.join(SPEC, "mc", "Fut_Mon.cfg"), fc.monitor_lines),
         ("HB", os.path.join(SPEC, "lib", "HBMon.tla"), os.path.join(SPEC, "mc", "HBMon.cfg"), fc.hb_lines),
         ("L2", os.path.join(SPEC, "Fut_Trace.tla"), os.path.join(SPEC, "mc", "Fut_Trace.cfg"), fc.normalise),
+        # the same trace spec without invariants: never stops at a clause violation, so it decides conformance (drift) for
+        # every execution and sees every <<site, order>> pair; the run above gives the L1 verdicts on the L2 state
+        ("L2C", os.path.join(SPEC, "Fut_Trace.tla"), os.path.join(SPEC, "mc", "Fut_TraceConf.cfg"), fc.normalise),
     )
     futs = dict(zip([x[0] for x in layers], submit_all(pool, [(vlib.check_traces, (tla, cfg, [conv(ex) for ex in execs], pid + "_" + name, 4)) for name, tla, cfg, conv in layers])))
-    def judge(name, tla, cfg, conv, exs, issues):
+    def judge(name, tla, cfg, conv, exs, issues, reproduce=True):
         for iss in issues:
             ex = exs[iss.exec_index]
             key = exec_key(ex)
             if iss.kind == "rejected":
                 if name == "L2":
+                    continue            # counted by the conformance-only run
+                if name == "L2C":
                     V.drift += 1
                     log("SPEC-DRIFT component=future exec=%s seed=%s line=%d %s" % (json.dumps(key["params"]), key["seed"], iss.line, iss.detail))
                     continue
@@ -286,7 +292,7 @@ def run(pid, tier, seed, replay=None):
                 V.extra.setdefault("other_property_clauses_seen", []).append(what)
                 continue
             # reproducibility: the same schedule must fail again
-            if not replay:
+            if reproduce and not replay:
                 ex2 = rerun(key)
                 lines2 = [conv(ex2)] if ex2 else []
                 _, iss2, _ = vlib.check_traces(tla, cfg, lines2, pid + "_re") if lines2 else (0, [], {})
@@ -304,8 +310,10 @@ def run(pid, tier, seed, replay=None):
 
     kexecs, kfuts = [], {}
     if not replay:
-        kexecs, _ = record(KNOWN, (seed * 1000 + 1, seed * 1000 + 4), "mix", os.path.join(vlib.BUILD, "traces", pid + "_known"), jobs=3)
-        kfuts = dict(zip(["L1", "L2"], submit_all(pool, [(vlib.check_traces, (tla, cfg, [conv(ex) for ex in kexecs], pid + "_K" + name, 4)) for name, tla, cfg, conv in layers if name in ("L1", "L2")])))
+        # known finding: the L1 monitor gives the verdict, the L2 trace spec (conformance only) shows the code does what Fut.tla says
+        kexecs, _ = record(KNOWN, (seed * 1000 + 1, seed * 1000 + 2), "mix", os.path.join(vlib.BUILD, "traces", pid + "_known"), jobs=1)
+        conf = os.path.join(SPEC, "mc", "Fut_TraceConf.cfg")
+        kfuts = dict(zip(["L1", "L2"], submit_all(pool, [(vlib.check_traces, (tla, conf if name == "L2" else cfg, [conv(ex) for ex in kexecs], pid + "_K" + name, 4)) for name, tla, cfg, conv in layers if name in ("L1", "L2")])))
     results = {}
     for name, tla, cfg, conv in layers:
         acc, issues, st = futs[name].result()
@@ -319,15 +327,15 @@ def run(pid, tier, seed, replay=None):
             if name in kfuts:
                 acc, issues, st = kfuts[name].result()
                 kn[name] = {"accepted": acc, "issues": len(issues)}
-                judge(name, tla, cfg, conv, kexecs, issues)
+                judge(name, tla, cfg, conv, kexecs, issues, reproduce=False)
         V.extra["known_finding_executions"] = dict(kn, executions=len(kexecs))
     timing["validated_s"] = round(time.time() - V.t0, 1)
-    V.cov["traces_validated_against_impl"] = results["L1"][0] + results["L2"][0] + results["HB"][0]
+    V.cov["traces_validated_against_impl"] = results["L1"][0] + results["L2C"][0] + results["HB"][0]
     for ex in execs[:2]:
         V.sample({"program": ex[0]["params"], "strategy": ex[0]["strategy"], "events": len(ex), "first_events": [e for e in ex[1:40] if e.get("t", 0) > 0][:8]})
 
     # ---- order table read from the running code
-    table, changed, unobserved, unknown, mo_path = regen_mo(results["L2"][2]["pairs"], mo_committed, os.path.join(vlib.BUILD, "gen", "mo_" + pid))
+    table, changed, unobserved, unknown, mo_path = regen_mo(sorted(set(map(tuple, results["L2"][2]["pairs"])) | set(map(tuple, results["L2C"][2]["pairs"]))), mo_committed, os.path.join(vlib.BUILD, "gen", "mo_" + pid))
     V.extra["mo_table"] = table
     V.extra["mo_changed_vs_committed"] = {k: list(v) for k, v in changed.items()}
     V.extra["mo_sites_unobserved"] = unobserved
@@ -368,8 +376,9 @@ def run(pid, tier, seed, replay=None):
     timing["mc_done_s"] = round(time.time() - V.t0, 1)
     V.extra["timing"] = timing
     log("C08 %s: %d executions, phases %s" % (tier, len(execs), json.dumps(timing)))
-    V.extra["constants"] = {"sc": "1 setter + unordered pairs over {get, wait_for(1), on_finish, then, ready}, wait_for(-1 | 0 | huge), 4-thread and 2-operation programs, spurious weak-CAS failure, latch count 0..3",
-                            "wm": "Stale=TRUE: 1 setter + unordered pairs over {get, wait_for(1), on_finish, ready}, 2-operation threads, latch(2)"}
+    V.extra["constants"] = {"sc": "1 setter + unordered pairs over {get, wait_for(1), on_finish, ready}, then, wait_for(-1 | 0 | huge), 2-operation threads, setter registering itself, sleep + timeouts, spurious weak-CAS failure, latch count 0..3",
+                            "wm": "Stale=TRUE: 1 setter + unordered pairs over {get, on_finish, ready}, wait_for(1) vs on_finish, 2-operation threads, latch(2)",
+                            "thorough": "all ordered pairs over 8 operations, 4 threads (multisets with on_finish), 3 registrations with spurious CAS failures, Stale=TRUE with 4 threads, liveness under weak fairness"}
     V.assumptions += [
         "WeakMem.tla is a subset of ISO C++ (promise-free release/acquire + fences, stores at the end of mo); seq_cst accesses have hardware strength",
         "the driver is built with -DNDEBUG (production configuration): the assert-only acquire load of _head in value() is absent, so it cannot hide a missing ordering",
